@@ -94,12 +94,15 @@ type world struct {
 type wkey struct {
 	n, n0 int
 	alt   bool
+	seats int
 }
 
 var worlds = map[wkey]*world{}
 
-func getWorld(n, n0 int, alt bool) *world {
-	if w, ok := worlds[wkey{n, n0, alt}]; ok {
+// getWorld: the snapshot blocks LIST n (term 1) and n0 (term 0) nodes; the chain is configured with `seats` deputy seats, so
+// only the first `seats` of a list are deputies (the others are candidate nodes, listed but without a slot).
+func getWorld(n, n0 int, alt bool, seats int) *world {
+	if w, ok := worlds[wkey{n, n0, alt, seats}]; ok {
 		return w
 	}
 	params.TermDuration = termDuration
@@ -125,12 +128,14 @@ func getWorld(n, n0 int, alt bool) *world {
 	l := &loader{blocks: map[uint32]*types.Block{}}
 	l.blocks[0] = &types.Block{Header: &types.Header{Height: 0}, DeputyNodes: nodes(w.t0, w.id0)}
 	l.blocks[termDuration] = &types.Block{Header: &types.Header{Height: termDuration}, DeputyNodes: nodes(w.t1, w.id1)}
-	max := n
-	if n0 > max {
-		max = n0
+	w.dm = deputynode.NewManager(seats, l)
+	if len(w.t0) > seats {
+		w.t0, w.id0 = w.t0[:seats], w.id0[:seats]
 	}
-	w.dm = deputynode.NewManager(max, l)
-	worlds[wkey{n, n0, alt}] = w
+	if len(w.t1) > seats {
+		w.t1, w.id1 = w.t1[:seats], w.id1[:seats]
+	}
+	worlds[wkey{n, n0, alt, seats}] = w
 	return w
 }
 
@@ -171,18 +176,27 @@ func eval(t tuple) map[string]interface{} {
 	var w *world
 	var deps []common.Address
 	var ids []int
+	// every third tuple: the snapshot block of the term in charge lists two nodes more than the chain has seats
+	// (candidate nodes); otherwise there are as many seats as the bigger term needs (the smaller term leaves seats empty)
+	over := (t.Parent/12)%3 == 0
+	mine, seats := t.N, t.N
+	if over {
+		mine = t.N + 2
+	} else if other > seats {
+		seats = other
+	}
 	switch t.Kind {
 	case "reward":
-		w = getWorld(t.N, other, alt)
+		w = getWorld(mine, other, alt, seats)
 		deps, ids = w.t1, w.id1
 	case "normal1":
-		w = getWorld(t.N, t.N, alt)
+		w = getWorld(mine, mine, alt, t.N)
 		deps, ids = w.t1, w.id1
 	case "interim":
-		w = getWorld(other, t.N, alt)
+		w = getWorld(other, mine, alt, seats)
 		deps, ids = w.t0, w.id0
 	default: // h1, normal0
-		w = getWorld(t.N, t.N, alt)
+		w = getWorld(mine, mine, alt, t.N)
 		deps, ids = w.t0, w.id0
 	}
 	h := t.height()
